@@ -95,6 +95,51 @@ def cmdSerR (cls opts isGraph ns data : String) : String :=
       | some r => s!"ok {hexOfBytes (framesBytes o.params.delimited r.frames)} flow={r.stream.flow.rows.length} {errText r.err}"
   | _, _ => "?bad-args"
 
+def parseNs (ns : String) : Option (List (String × String)) :=
+  if ns == "_" then some [] else
+  (ns.splitOn "/").mapM fun b =>
+    match b.splitOn "=" with
+    | [k, v] => some (strOfBytes (bytesOfHex k), strOfBytes (bytesOfHex v))
+    | _ => none
+
+def parseGraphs (data : String) : Option (List (Term × List (List Term))) :=
+  if data == "-" then some [] else (data.splitOn "+").mapM fun g =>
+    match g.splitOn "@" with
+    | [gid, sts] => match parseTerm gid, parseStmts sts with
+      | some t, some l => some (t, l)
+      | _, _ => none
+    | _ => none
+
+/-- `plug <isDataset01> <opts|-> <cls:opts|-> <ns|_> <graphs> <quads>` : the rdflib plugin
+    (`Graph.serialize(format="jelly", options=, stream=)`); `-` = argument not given. -/
+def cmdPlug (isDs opts stream ns graphs quads : String) : String :=
+  let optsO : Option SerOptions := if opts == "-" then none else some (parseSerOptions opts)
+  let streamE : Option (Except PyErr Stream) :=
+    if stream == "-" then none else
+    match stream.splitOn ":" with
+    | cls :: rest => (streamClass? cls).map fun c => Stream.new c (parseSerOptions (":".intercalate rest))
+    | _ => none
+  match parseNs ns, parseGraphs graphs, parseStmts quads with
+  | some nss, some gs, some qs =>
+    if stream != "-" && streamE.isNone then "?bad-stream" else
+    match streamE with
+    | some (.error e) => "!" ++ e.name
+    | _ =>
+      let st : RStore := { isDataset := isDs == "1", ns := nss, graphs := gs, quads := qs }
+      let sO : Option Stream := match streamE with | some (.ok s) => some s | _ => none
+      let (b, err) := pluginSerialize st optsO sO
+      s!"ok {hexOfBytes b} {errText err}"
+  | _, _, _ => "?bad-args"
+
+/-- `rflat <opts|-> <stmts>` : rdflib `flat_stream_to_file`. -/
+def cmdRFlat (opts data : String) : String :=
+  let optsO : Option SerOptions := if opts == "-" then none else some (parseSerOptions opts)
+  match parseStmts data with
+  | none => "?bad-data"
+  | some stmts =>
+    let (b, err) := flatStreamToFileR stmts optsO
+    s!"ok {hexOfBytes b} {errText err}"
+
 /-- `step <cls> <opts> op…` : a stream driven call by call, exceptions caught by the caller. -/
 def cmdStep (cls opts : String) (ops : List String) : String :=
   match streamClass? cls with
@@ -225,6 +270,8 @@ def handle (line : String) : String :=
     cmdLk rule (size.toNat?.getD 0) (keys.map fun k => strOfBytes (bytesOfHex (k.drop 1).toString))
   | ["ser", cls, entry, opts, data] => cmdSer cls entry opts data
   | ["serr", cls, opts, isGraph, ns, data] => cmdSerR cls opts isGraph ns data
+  | ["plug", isDs, opts, stream, ns, graphs, quads] => cmdPlug isDs opts stream ns graphs quads
+  | ["rflat", opts, data] => cmdRFlat opts data
   | "step" :: cls :: opts :: ops => cmdStep cls opts ops
   | ["trace", cls, opts, data] => cmdTrace cls opts data
   | ["fits", opts, data] =>
